@@ -145,6 +145,9 @@ var stressTick atomic.Uint64
 func init() {
 	caddy.VerifUsagePoolYield = func(up *caddy.UsagePool, point int, l *sync.RWMutex) {
 		if stressOn.Load() {
+			if point == pointLoadOrStoreRetry {
+				stressRetryHook()
+			}
 			if stressTick.Add(1)%3 == 0 {
 				runtime.Gosched()
 			}
